@@ -57,6 +57,9 @@ Failing(h, e, fl) ==
         ELSE IF op = "Cli" THEN
           \* the command line is judged with the transition of the library operation it fronts
           IF a.op \notin CliOps THEN [cliOp |-> FALSE]
+          \* (the command reads its files under the default duplicate-name policy: a receiver with another policy is not
+          \* the object the command works on)
+          ELSE IF a.op \in {"Append", "Concat"} /\ h[recv].pol # 0 THEN [frame |-> \A i \in 1..Len(h) : i <= n /\ obs[i] = h[i]]
           ELSE IF a.op \in RelationalOps THEN
             LET \* `mask --ref-seq`: the window is given on the reference and converted first
                 viaRef  == a.op = "Mask" /\ Len(a.a.ref) > 0
